@@ -504,6 +504,20 @@ func ruleErrorSplit(c *Ctx, rule string) {
 			if call, ok := stripConv(cr.err).(*ssa.Call); ok && strings.HasPrefix(calleeName(call), "google.golang.org/grpc/status.") {
 				isStatus = true
 			}
+			if !isStatus {
+				// the error of a private helper (e.g. method resolution): every non-nil value it can return is a status
+				if cases := valueCases(cr.err, 0); len(cases) > 1 {
+					isStatus = true
+					for _, vc := range cases {
+						if isNilConst(vc.Val) {
+							continue
+						}
+						if call, ok := stripConv(vc.Val).(*ssa.Call); !ok || !strings.HasPrefix(calleeName(call), "google.golang.org/grpc/status.") {
+							isStatus = false
+						}
+					}
+				}
+			}
 			c.check(good && isStatus, rule, key, w.At(cr.ret), "stream-level rejection with a status error", "a stream-level rejection must carry a non-nil status error ("+why+")")
 			if ins != nil {
 				c.check(!dominates(ins, cr.ret), rule, key+": not registered", w.At(cr.ret), "rejected before the table insert", "a stream is rejected after it was inserted in the table (entry never removed)")
@@ -682,7 +696,7 @@ func ruleRejectedIDsRecorded(c *Ctx, rule string) {
 		key := fmt.Sprintf("%s: stream-level %s", w.Short(a.Create), what)
 		c.check(dominates(hw, cr.ret), rule, key, w.At(cr.ret), "dominated by "+hwField.String()+" = id at "+w.At(hw), "this stream-level rejection returns before the id is recorded in "+hwField.String()+": the refused RPC's next frame (request data / half-close, usually already in flight) is classified 'never created' and tears down the tunnel with every in-flight RPC")
 	}
-	c.floor(rule, n, 4, "stream-level rejection returns")
+	c.floor(rule, n, 2, "stream-level rejection returns")
 }
 
 // ruleIDValidation (C08.4).
@@ -888,6 +902,7 @@ func (c *Ctx) idCheckSummary(call *ssa.Call, hwField FieldRef) *idHelper {
 	if hp == nil {
 		return nil
 	}
+	hpo := origin(hp) // the helper's parameter stands for the creation function's id when the helper is used at one place
 	sum := &idHelper{fn: h, errAll: true, nilOK: true}
 	seen := map[string]bool{}
 	forEachReturnValue(h, 0, func(v ssa.Value, at ssa.Instruction) {
@@ -895,7 +910,7 @@ func (c *Ctx) idCheckSummary(call *ssa.Call, hwField FieldRef) *idHelper {
 		for _, f := range boolFactsAt(at) {
 			if ex, ok := f.V.(*ssa.Extract); ok && ex.Index == 1 {
 				if l, ok := ex.Tuple.(*ssa.Lookup); ok {
-					if fr, _, ok := loadedField(l.X); ok && fr == a.SvStreams && origin(l.Index) == ssa.Value(hp) {
+					if fr, _, ok := loadedField(l.X); ok && fr == a.SvStreams && origin(l.Index) == hpo {
 						if f.True {
 							present = true
 						} else {
@@ -910,10 +925,10 @@ func (c *Ctx) idCheckSummary(call *ssa.Call, hwField FieldRef) *idHelper {
 			if !ok {
 				continue
 			}
-			if origin(y) == ssa.Value(hp) && isFieldLoad(x, hwField) {
+			if origin(y) == hpo && isFieldLoad(x, hwField) {
 				x, y, op = y, x, flipCmp(op)
 			}
-			if origin(x) == ssa.Value(hp) && isFieldLoad(y, hwField) {
+			if origin(x) == hpo && isFieldLoad(y, hwField) {
 				switch op {
 				case token.LEQ:
 					le = true
